@@ -1,46 +1,31 @@
 (* C18 — Reference lookup and iteration match git.
    Only statements here; every proof is [exact <lemma>].
-   Model.v: the sorted directory walk (gix-features cmp_entry_names, as fixed), SortedLoosePaths,
+   Model.v: the directory walk sorted by file name, SortedLoosePaths (collect + sort by full name, as fixed),
    packed iteration, the LooseThenPacked overlay, try_find's lookup rules (as fixed).
    Spec.v: git's view — a finite map name -> value, loose over packed; ref_rev_parse_rules.
    [bytes_cmp] is the unsigned lexicographic byte order (memcmp then length), [blt a b] := bytes_cmp a b = Lt.
    [fname f] is the slash-joined path of a file given by its components.
-   [files_wf]: components are non-empty and contain no '/', no path occurs twice.
+   [files_wf]: no path occurs twice.
    [klt key]: strictly ascending by [key]; [StronglySorted]: every element is below all later ones. *)
 From Coq Require Import List Sorted Permutation.
 From GixV.Base Require Import Bytes BytesFacts Outcome.
 From GixV.C18 Require Import Validate Model Spec ProofsOrder ProofsMerge ProofsIter ProofsFind.
 Import ListNotations.
 
-(* Two different entries x, y of one directory (dx, dy: is a directory; rx, ry: anything below them,
-   nothing below a file): comparing the entries as the fixed walk does is comparing every pair of
-   paths through them by bytes.  This is why a directory must sort as if its name ended in '/'. *)
-Theorem entry_order_is_path_order : forall x y dx dy rx ry,
-  noslash x = true -> noslash y = true -> x <> y ->
-  (dx = false -> rx = []) -> (dy = false -> ry = []) ->
-  bytes_cmp (x ++ (if dx then slash :: rx else [])) (y ++ (if dy then slash :: ry else []))
-  = cmp_entry_names x dx y dy.
-Proof. exact entry_cmp_ext. Qed.
-
-(* the order in which the traversal reaches two files is the byte order of their full paths *)
-Theorem traversal_order_is_byte_order : forall xs ys,
-  forallb comp_wf xs = true -> forallb comp_wf ys = true ->
-  path_cmp xs ys = bytes_cmp (join xs) (join ys).
-Proof. exact path_cmp_join. Qed.
-
-(* the loose walk below any root yields exactly the files below it, strictly ascending by full name *)
-Theorem walk_sorted_by_full_name : forall root files, files_wf files ->
-  StronglySorted (klt fname) (walk root files) /\
-  Permutation (filter (under root) files) (walk root files).
-Proof. intros root files H. split; [apply walk_strict; exact H|apply walk_perm]. Qed.
-
-(* ... and so does SortedLoosePaths, which keeps the valid names (and those with the prefix) *)
-Theorem loose_paths_sorted : forall root prefix files, files_wf files ->
+(* SortedLoosePaths (walk, filter, collect, sort by full name) yields exactly the regular files below the
+   root that have the prefix and a valid name, strictly ascending by full name, whatever order the
+   directory walk produced them in *)
+Theorem loose_paths_sorted_by_full_name : forall root prefix files, files_wf files ->
   StronglySorted (klt fname) (sorted_loose root prefix files) /\
   (forall f, In f (sorted_loose root prefix files) <->
      In f files /\ under root f = true /\
      (match prefix with Some p => starts_with (fname f) p | None => true end && name_ok (fname f)) = true).
 Proof. intros root prefix files H. split; [apply sorted_loose_strict; exact H|intros f; apply sorted_loose_in]. Qed.
+
+(* the directory walk alone (sorted by file name per directory) visits exactly the files below the root *)
+Theorem walk_visits_every_file_once : forall root files,
+  Permutation (filter (under root) files) (walk root files).
+Proof. exact walk_perm. Qed.
 
 (* the overlay of two strictly sorted streams is strictly sorted (ascending, no name twice) and
    contains exactly the loose entries plus the packed entries whose name is not loose *)
@@ -97,12 +82,12 @@ Proof. exact L_dwim_refuted. Qed.
 
 (* ---- non-vacuity ------------------------------------------------------------------------- *)
 
-(* the witness of the defect: directory `a` against file `a-b`.  By file name `a` comes first (what the
-   code did), by path `a-b` < `a/c` *)
-Example dir_sorts_after_dash :
-  bytes_cmp (bs "a") (bs "a-b") = Lt /\ cmp_entry_names (bs "a") true (bs "a-b") false = Gt /\
-  bytes_cmp (bs "refs/heads/a-b") (bs "refs/heads/a/c") = Lt.
-Proof. repeat split. Qed.
+(* the witness of the defect: the walk reaches refs/heads/a/c before refs/heads/a-b (file name `a` < `a-b`),
+   the full names are the other way round ('-' < '/'): the walk order is not the name order, hence the sort *)
+Example walk_order_is_not_name_order :
+  path_cmp [bs "refs"; bs "heads"; bs "a"; bs "c"] [bs "refs"; bs "heads"; bs "a-b"] = Lt /\
+  bytes_cmp (bs "refs/heads/a/c") (bs "refs/heads/a-b") = Gt.
+Proof. split; reflexivity. Qed.
 
 Definition ex_tree : list file :=
   [([bs "refs"; bs "heads"; bs "a"; bs "c"], bs "1111111111111111111111111111111111111111");
@@ -115,9 +100,8 @@ Definition ex_pack : list prec :=
 
 Example ex_tree_wf : files_wf ex_tree /\ StronglySorted (klt fst) ex_pack.
 Proof.
-  split; [split|].
-  - repeat constructor.
-  - cbn. repeat constructor; cbn; intuition discriminate.
+  split.
+  - unfold files_wf. cbn. repeat constructor; cbn; intuition discriminate.
   - repeat constructor.
 Qed.
 
